@@ -1,3 +1,4 @@
+use crate::internals::function_wrapper::FunctionWrapper;
 use crate::prelude::*;
 use std::sync::{Arc, RwLock};
 
@@ -10,6 +11,10 @@ where
   items: Arc<RwLock<Vec<Item>>>,
   was_error: Arc<RwLock<Option<RxError>>>,
   was_completed: Arc<RwLock<bool>>,
+  // the on_subscribe hook (used by the replay operator to connect its source) runs after
+  // the new subscriber has been given the history, not inside the inner subscription
+  on_subscribe: Arc<RwLock<Option<FunctionWrapper<'a, usize, ()>>>>,
+  subscribed_count: Arc<RwLock<Option<usize>>>,
 }
 
 impl<'a, Item> ReplaySubject<'a, Item>
@@ -22,6 +27,8 @@ where
       items: Arc::new(RwLock::new(Vec::new())),
       was_error: Arc::new(RwLock::new(None)),
       was_completed: Arc::new(RwLock::new(false)),
+      on_subscribe: Arc::new(RwLock::new(None)),
+      subscribed_count: Arc::new(RwLock::new(None)),
     }
   }
 
@@ -42,6 +49,8 @@ where
     let was_error = Arc::clone(&self.was_error);
     let was_completed = Arc::clone(&self.was_completed);
     let subject = Arc::clone(&self.subject);
+    let on_subscribe = Arc::clone(&self.on_subscribe);
+    let subscribed_count = Arc::clone(&self.subscribed_count);
 
     Observable::create(move |s| {
       let sbsc = Arc::new(RwLock::new(None::<Subscription>));
@@ -98,6 +107,16 @@ where
           sbsc.unsubscribe();
         }
       }
+      // now that the history has been handed over: tell the hook about the new subscriber
+      let count = subscribed_count.write().unwrap().take();
+      if let Some(count) = count {
+        if s_check.is_subscribed() {
+          let f = on_subscribe.read().unwrap().clone();
+          if let Some(f) = f {
+            f.call(count);
+          }
+        }
+      }
     })
   }
 
@@ -105,7 +124,11 @@ where
   where
     F: Fn(usize) + Send + Sync + 'a,
   {
-    self.subject.set_on_subscribe(f);
+    *self.on_subscribe.write().unwrap() = Some(FunctionWrapper::new(f));
+    let subscribed_count = Arc::clone(&self.subscribed_count);
+    self.subject.set_on_subscribe(move |count| {
+      *subscribed_count.write().unwrap() = Some(count);
+    });
   }
 
   pub(crate) fn set_on_unsubscribe<F>(&self, f: F)
